@@ -8,6 +8,8 @@ Monitors
   block-swap              swap(l, r): k-th wire of l ends at len(r) + k, in order
   cod-is-permuted-dom     type bookkeeping, and the result is well-typed
   permute-appends         d.permute(*p) == d >> permutation(p, d.dom)
+  argument-not-consumed   the list handed in is left as it was: a second call with the
+                          same list object returns the same diagram
   refused                 non-permutations / length mismatches / composite Swap
 """
 import itertools
@@ -155,7 +157,12 @@ def do_permutation(ctx, perm, rng=None):
     for cls, D, swap_cls, make_ty, Id in _ENV["classes"]:
         dom = make_ty(names_for(len(perm)))
         request = "permutation(perm, dom)"
-        result = D.permutation(list(perm), dom)
+        mine = list(perm)
+        result = D.permutation(mine, dom)
+        again = D.permutation(mine, dom)      # the very same list object
+        ctx.expect("argument-not-consumed", mine == list(perm) and again == result,
+                   cls=cls, perm=list(perm), list_after_the_call=mine,
+                   second_result=lambda: safe_repr(again))
         check_permutation(ctx, cls, list(perm), result, dom, swap_cls, request)
         if Id is not None:
             identity = Id(dom)
